@@ -62,6 +62,12 @@ type LedgerSpec struct {
 	Exempt map[string]string
 	// Subjects restricts the analysis to functions reachable from these roots.
 	Subjects map[*ssa.Function]bool
+	// Scratch lists functions (with reason) that work on a scratch copy of a record for
+	// estimation / display; accepted only if they cannot reach any of NoPersist.
+	Scratch   map[string]string
+	NoPersist []string
+	// Extra lets a property add deltas the generic extractors cannot see.
+	Extra func(P *core.Program, ff *core.FuncFacts, fn *ssa.Function) []Delta
 }
 
 type Delta struct {
@@ -323,11 +329,25 @@ func CheckLedgers(P *core.Program, R *core.Report, spec *LedgerSpec) {
 			continue
 		}
 		deltas := ExtractDeltas(P, spec, fn)
+		if spec.Extra != nil && len(deltas) > 0 {
+			deltas = append(deltas, spec.Extra(P, P.Facts(fn), fn)...)
+		}
 		if len(deltas) == 0 {
 			continue
 		}
 		if why, ok := spec.Exempt[key]; ok {
 			R.Add(spec.Rule+"-exempt", key, "exempt writer", P.Pos(fn.Pos()), true, why)
+			continue
+		}
+		if why, ok := spec.Scratch[key]; ok {
+			bad := ""
+			reach := P.Reach([]*ssa.Function{fn})
+			for _, np := range spec.NoPersist {
+				if f := P.Fn(np); f != nil && reach[f] {
+					bad = "but it can reach " + np
+				}
+			}
+			R.Add(spec.Rule+"-scratch", key, "scratch record", P.Pos(fn.Pos()), bad == "", why+" "+bad)
 			continue
 		}
 		if why, ok := spec.Helpers[key]; ok {
